@@ -30,9 +30,10 @@ def sh(cmd, **kw):
 
 
 def test_summary(wt, args):
-    r = sh("cd %s && %s -m pytest -q -p no:cacheprovider --timeout=900 -x --co -q %s >/dev/null 2>&1; "
-           "cd %s && %s -m pytest -q -p no:cacheprovider --timeout=900 -rf %s 2>&1 | grep -E '^(FAILED|ERROR)|passed|failed' | sort"
-           % (wt, PY, args, wt, PY, args))
+    """Sorted FAILED test ids plus the passed count (teardown ERROR lines of the socket tests vary from run to run)."""
+    thr = "OMP_NUM_THREADS=1 OPENBLAS_NUM_THREADS=1 MKL_NUM_THREADS=1 NUMBA_NUM_THREADS=1 MPLBACKEND=agg"
+    r = sh("cd %s && %s %s -m pytest -q -p no:cacheprovider --timeout=900 -rf %s 2>&1 | grep -E '^FAILED| passed' "
+           "| sed -E 's/ in [0-9.]+s.*//; s/, [0-9]+ warnings?//; s/, [0-9]+ errors?//' | sort" % (wt, thr, PY, args))
     return r.stdout.strip()
 
 
